@@ -114,7 +114,7 @@ def make_replay(verif, pid, r, oid):
     inputs = harness_inputs(trace)
     fam = family_of(u.id)
     native = None
-    if fam and (inputs or fam.get('src') in ('replay_bt.cpp', 'replay_fp.cpp')):
+    if fam and (inputs or fam.get('src') in ('replay_bt.cpp', 'replay_fp.cpp', 'replay_c16.cpp', 'replay_gz.cpp')):
         native = run_native(verif, fam, u.id, inputs)
     confirmed = bool(native and native.get('ran') and native.get('misbehaves'))
     fn = re.sub(r'[^A-Za-z0-9_.@-]', '_', '%s-%s-%s.json' % (pid, uid, oid))
@@ -347,3 +347,7 @@ FAMILIES['w.'] = {'name': 'w', 'custom': writer_replay}
 FAMILIES['bt.eqhash.MalformedMessageData'] = {'name': 'bt', 'src': 'replay_bt.cpp', 'argv': lambda u, i: []}
 
 FAMILIES['r.FilePreamble'] = {'name': 'fp', 'src': 'replay_fp.cpp', 'argv': lambda u, i: []}
+
+FAMILIES['out.gzip.write_gzip'] = {'name': 'gz', 'src': 'replay_gz.cpp', 'argv': lambda u, i: [max(i.get('a_in', 0), 32 << 20)]}
+
+FAMILIES['out.gzip.rotate_output.c16'] = {'name': 'c16', 'src': 'replay_c16.cpp', 'argv': lambda u, i: []}
